@@ -11,7 +11,8 @@ ASSUMPTIONS = [
     'component objects, engines, experiment/graph containers and rx delivery are fakes (sched_driver.py); the '
     'Controller object and all of its scheduling/termination methods are the real code',
     'postMortemCheck is atomic (the stability waits inside _restartComponent are not interleaved with other callbacks)',
-    'no DoWhile placeholders, memoization, migration, optimizer, stage-in failures (Controller.sleep/wake_up ARE modelled and driven)',
+    'no DoWhile placeholders, memoization hits, migration, optimizer, stage-in failures (Controller.sleep/wake_up and the '
+    'controller part of a live patch — new graph object, parse_workflow_graph — ARE modelled and driven)',
 ]
 
 
@@ -70,6 +71,72 @@ def run_one(ctx, W, out, chooser, terms, tag, slow_pm=False, sleepy=False, with_
     if len(trace) > 6:
         ctx.sample({'workflow': W, 'outcome': out, 'schedule': evs,
                     'final_states': [c[0] for c in trace[-1][2]['comps']]}, limit=3)
+    return trace
+
+
+FINALS = ('finished', 'failed', 'component_shutdown')
+
+
+def patch_chooser(r2, psl, ppatch=0.7):
+    def ch(en, step):
+        pk = [k for k, e in enumerate(en) if e[0] == 'Patch']
+        sl = [k for k, e in enumerate(en) if e[0] in ('Sleep', 'Wake')]
+        rest = [k for k, e in enumerate(en) if e[0] not in ('Sleep', 'Wake', 'Patch')]
+        if pk and r2.random() < ppatch:
+            return pk[0]
+        if sl and (not rest or r2.random() < psl):
+            return sl[0]
+        return r2.choice(rest)
+    return ch
+
+
+def run_patched(ctx, W, out, chooser, pterms, tag, patcher, who='C01'):
+    """a run in which the workflow is live-patched while the controller sleeps (sched_driver.Driver.patch); the trace
+    is a term for Sched.Patch.check_pcase; predicates: launch guard against the workflow in force (a component is
+    given new producers only before its launch, so that is the final description), final states never change, a
+    stage ends only with all of its components final, a failed component makes its stage fail, the run ends"""
+    trace, errors, complete, drv = SC.explore(W, out, chooser, sleepy=True, patcher=patcher, maxlen=600)
+    evs = [t[0] for t in trace]
+    Wf, outf = drv.W, drv.outcome
+    n = len(Wf)
+    npatch = sum(1 for e in evs if e[0] == 'Patch')
+    nedges = sum(len(e[2]) for e in evs if e[0] == 'Patch')
+    ctx.case([W, sorted(out.items()), evs], npatch > 0 and nedges > 0)
+    ctx.count('%s_schedules' % tag)
+    ctx.count('patches_applied', npatch)
+    ctx.count('patched_in_components', n - len(W))
+    ctx.count('patched_in_edges_to_existing_components', nedges)
+    ctx.count('events', len(trace))
+    case = {'W': W, 'outcome': {str(k): v for k, v in out.items()}, 'schedule': evs, 'live_patch': True}
+    if errors:
+        ctx.disagree(case, errors[0][-1500:], None, '%s driver (live patch): Controller.run raised an unexpected exception' % who)
+        return trace
+    if not complete:
+        ctx.fail(case, 'the run did not end within 600 events (live patch)', [])
+        return trace
+    ptrace = [(ev, SC.pad_obs(pre, n), SC.pad_obs(post, n)) for (ev, pre, post) in trace]
+    first_final = {}
+    for (ev, pre, post) in trace:
+        for c in range(len(post['comps'])):
+            st = post['comps'][c][0]
+            if st in FINALS:
+                if c in first_final and first_final[c] != st:
+                    ctx.fail(dict(case, component=c, at=ev), 'a recorded final state changed (%s -> %s)' % (first_final[c], st), [])
+                first_final.setdefault(c, st)
+        if ev[0] in ('Tick', 'Start') and not post['running']:
+            # run() returned for stage post['cur']: the components that exist at this moment
+            st_comps = [c for c in range(len(post['comps'])) if Wf[c]['stage'] == post['cur']]
+            for c in st_comps:
+                if post['comps'][c][0] not in FINALS:
+                    ctx.fail(dict(case, component=c, at=ev), 'stage loop ended with a component of the stage not in a final state (live patch)', [])
+            if any(post['comps'][c][0] == 'failed' for c in st_comps) and post['verdict'] != 'UnexpectedJobFailureError':
+                ctx.fail(dict(case, at=ev), 'a component failed but its stage was not reported as failed (live patch)', [])
+    for (c, p, what, ev) in SC.launch_violations(Wf, ptrace):
+        ctx.fail(dict(case, component=c, producer=p, at=ev), what + ' (live patch)', [])
+    pterms.append((SC.coq_pcase(W, outf, trace), case))
+    if npatch and len(trace) > 8:
+        ctx.sample({'workflow': W, 'patched_workflow': Wf, 'schedule': evs,
+                    'final_states': [c[0] for c in trace[-1][2]['comps']]}, limit=2)
     return trace
 
 
@@ -214,6 +281,35 @@ def run(ctx):
     for k, i in enumerate(sbad):
         ctx.disagree(sterms[i][1], 'trace of the real controller with sleep()/wake_up()', '',
                      'C01 trace with sleep/wake_up: real Controller vs Sched.Sleep.sstep')
+    # ---- live patch while the controller sleeps (elaunch LivePatcher: new graph object + parse_workflow_graph)
+    pterms = []
+    Rnd = __import__('random').Random
+    # corpus: first -> sim -> monitor; while first runs a component `extra` is patched in and sim is made to consume
+    # from it (C01_patch_nonvacuous); first finishes before extra: sim must wait for extra
+    Wp = [SC.comp(sd=['KnownIssue']), SC.comp(preds=[0]), SC.comp(preds=[1], rep=True)]
+    pev = ('Patch', [SC.comp()], [(3, 1)], [['Success']])
+    for tail in ([('Exit', 0), ('PM', 0), ('Fin', 0), ('Tick',), ('Tick',), ('Exit', 3), ('PM', 3), ('Fin', 3), ('Tick',), ('Tick',)],
+                 [('Exit', 3), ('PM', 3), ('Fin', 3), ('Tick',), ('Exit', 0), ('PM', 0), ('Fin', 0), ('Tick',), ('Tick',)]):
+        sched = [('Start',), ('Sleep',), pev, ('Wake',), ('Tick',)] + tail
+        run_patched(ctx, Wp, {0: ['Success'], 1: ['Success'], 2: ['Success']}, scripted(sched), pterms, 'patch_corpus',
+                    lambda d: (pev if d.patches == 0 else None))
+    # corpus: a component patched into the running stage fails: the stage must be reported as failed
+    pev2 = ('Patch', [SC.comp(mx=0, ro=[])], [], [['UnknownIssue']])
+    run_patched(ctx, [SC.comp()], {0: ['Success']},
+                scripted([('Start',), ('Sleep',), pev2, ('Wake',), ('Tick',), ('Exit', 0), ('PM', 0), ('Fin', 0), ('Exit', 1),
+                          ('PM', 1), ('Fin', 1), ('Tick',), ('Tick',)]), pterms, 'patch_corpus',
+                lambda d: (pev2 if d.patches == 0 else None))
+    npa = 100 if ctx.tier == 'quick' else 700
+    for i in range(npa):
+        W = SC.gen_workflow(rng, nmax=5)
+        out = SC.gen_outcome(rng, W)
+        r2 = Rnd(rng.random())
+        run_patched(ctx, W, out, patch_chooser(r2, r2.choice([0.1, 0.25, 0.4])), pterms, 'patch_random', SC.make_patcher(r2))
+    pbad = ctx.model_mismatches(SC.HEADER + '\nRequire Import V.Sched.Sleep V.Sched.Patch.', [t[0] for t in pterms],
+                                'check_pcase', chunk=25, name='patch')
+    for k, i in enumerate(pbad):
+        ctx.disagree(pterms[i][1], 'trace of the real controller with a live patch applied while it sleeps', '',
+                     'C01 trace with live patch: real Controller vs Sched.Patch.prun')
     bad = ctx.model_mismatches(SC.HEADER, [t[0] for t in terms], 'check_case', chunk=40)
     for k, i in enumerate(bad):
         where = ctx.model_eval(SC.HEADER, 'let \'(W, fx, tbl, tr) := %s in check_trace W fx (outcome_of tbl) state0 tr 0' % terms[i][0]) if k < 3 else ''
